@@ -11,7 +11,9 @@ package verifhook
 import (
 	"fmt"
 	"sort"
+	"sync"
 	"time"
+	"unsafe"
 )
 
 // SiteNames is filled by a generated init() in package influxql (verif_sites.go).
@@ -691,4 +693,77 @@ func MapKeys[M ~map[K]V, K comparable, V any](m M, site int32) []K {
 		}
 	}
 	return out
+}
+
+// ---------------------------------------------------------------------------------------------
+// sync.Pool seam (rewrite S): a deterministic LIFO pool per *sync.Pool. The real pool drops items
+// at random under the race detector and hands them over per-P, so failures that involve a pool
+// would neither replay nor minimise. Happens-before is kept exactly as the real pool has it: a
+// release on Put and an acquire on Get, keyed by the object's address.
+
+type poolSlot struct {
+	p     *sync.Pool
+	items [128]interface{}
+	n     int
+}
+
+var pools [32]poolSlot
+var poolsN int
+
+//go:norace
+func poolFor(p *sync.Pool) *poolSlot {
+	for i := 0; i < poolsN; i++ {
+		if pools[i].p == p {
+			return &pools[i]
+		}
+	}
+	if poolsN >= len(pools) {
+		return nil
+	}
+	pools[poolsN].p = p
+	poolsN++
+	return &pools[poolsN-1]
+}
+
+//go:norace
+func dataWord(x interface{}) unsafe.Pointer {
+	return (*[2]unsafe.Pointer)(unsafe.Pointer(&x))[1]
+}
+
+// PoolPut replaces p.Put(x).
+//
+//go:norace
+func PoolPut(p *sync.Pool, x interface{}) {
+	if x == nil {
+		return
+	}
+	s := poolFor(p)
+	if s == nil || s.n >= len(s.items) {
+		return // full: dropped, as a real pool may
+	}
+	if a := dataWord(x); a != nil {
+		raceReleaseMerge(a)
+	}
+	s.items[s.n] = x
+	s.n++
+}
+
+// PoolGet replaces p.Get().
+//
+//go:norace
+func PoolGet(p *sync.Pool) interface{} {
+	s := poolFor(p)
+	if s != nil && s.n > 0 {
+		s.n--
+		x := s.items[s.n]
+		s.items[s.n] = nil
+		if a := dataWord(x); a != nil {
+			raceAcquire(a)
+		}
+		return x
+	}
+	if p.New != nil {
+		return p.New()
+	}
+	return nil
 }
